@@ -85,6 +85,16 @@ U_C03V(zz) == {V1(<<IntF("a", n, sg, e), IntF("b", 2, FALSE, "little"), DataF("d
                 VDecl([C0 |-> Class([DefaultOpts EXCEPT !.endian = "little"], <<IntF("a", 2, FALSE, "default"), RefF("s", "C1"), BitsF("h", 4), BitsF("l", 12)>>),
                        C1 |-> Class(DefaultOpts, <<IntF("x", 2, FALSE, "default"), DataF("d", SzMarker(<<0>>, FALSE, TRUE))>>)], "full", 1, FALSE)}
 
+\* pack failures (C12): out-of-range and wrongly typed values at every depth, colliding positions, a before-pack hook that fails
+\* (AutoLength of an optional field that is absent), top level and nested
+U_C12V(zz) ==
+    {VDecl([C0 |-> Class(DefaultOpts, <<U1("t"), WithDesc(U1("n"), [kind |-> "autolen", of |-> "o"]), OptF("o", DataF("e", SzConst(1)), SzField("t"))>>)], "subsets", 1, FALSE),
+     VDecl([C0 |-> Class(DefaultOpts, <<U1("h"), RefF("s", "C1"), U1("z")>>),
+            C1 |-> Class(DefaultOpts, <<U1("t"), WithDesc(U1("n"), [kind |-> "autolen", of |-> "o"]), OptF("o", DataF("e", SzConst(1)), SzField("t"))>>)], "subsets", 1, FALSE),
+     VDecl([C0 |-> Class(DefaultOpts, <<IntF("a", 2, TRUE, "default"), RefF("s", "C1"), RepCountF("r", RefF("e", "C1"), SzConst(1), NoCond, 0)>>),
+            C1 |-> Class(DefaultOpts, <<IntF("x", 1, FALSE, "default"), IntF("y", 3, TRUE, "little")>>)], "full", 1, FALSE),
+     V1(<<U1("a"), MvField(DataF("d", SzConst(2)), [kind |-> "at", arg |-> SzField("a"), ref |-> "innermost-pkt"]), U1("z")>>, "full", FALSE)}
+
 \* -------------------------------------------------------------------- C07 (pack side)
 U_C07V(zz) == {V1(BitFields(ws), "full", TRUE) : ws \in {<<4, 4>>, <<3, 5>>, <<1, 7>>, <<1, 6, 1>>, <<8>>}}
           \cup {V1(BitFields(ws), "full", FALSE) : ws \in {<<12, 4>>, <<4, 12>>, <<1, 22, 1>>, <<12, 12>>, <<5, 6, 5>>}}
@@ -126,7 +136,8 @@ U_C19(zz) ==
 
 \* universes take a dummy parameter so that TLC does not evaluate all of them at start-up; a profile names the one it explores
 PickUV(n) ==
-    CASE n = "UV_Smoke" -> UV_Smoke(0)
+    CASE n = "U_C12V" -> U_C12V(0)
+      [] n = "UV_Smoke" -> UV_Smoke(0)
       [] n = "U_C02" -> U_C02(0)
       [] n = "U_C02_Pos" -> U_C02_Pos(0)
       [] n = "U_C03V" -> U_C03V(0)
